@@ -49,7 +49,7 @@ def hostile(rng, style):
     cls = rng.choice(["lf", "cr", "crlf", "unicode-break", "closer", "own-closer", "own-opener",
                       "opener", "payload", "percent", "format-field", "non-ascii", "blank", "long",
                       "lf+closer", "trailing-break", "nested-closer", "nested-closer", "split-closer",
-                      "closer-run"])
+                      "closer-run", "unencodable"])
     pay = rng.choice(PAYLOADS)
     if cls == "lf":
         t = f"hello\n{pay}"
@@ -92,6 +92,14 @@ def hostile(rng, style):
         c = closing or "*/"
         k = max(1, len(c) // 2)
         t = f"a {c[:k]}{rng.choice(['\n', '\r', ' ', '\t', ''])}{c[k:]} {pay}"
+    elif cls == "unencodable":
+        # lone surrogates (os.fsdecode of a non-UTF-8 file name, json "\\ud800") cannot be encoded: whatever
+        # the writer does with them, they must not help the text out of the comment (e.g. by vanishing
+        # from the middle of a split closing symbol or line break)
+        c = closing or "*/"
+        k = max(1, len(c) // 2)
+        sur = rng.choice(["\udcff", "\ud800", "\udcff\udc80"])
+        t = rng.choice([f"a {c[:k]}{sur}{c[k:]} {pay}", f"a {sur}{c} {pay}", f"name{sur}.nc\n{pay}"])
     elif cls == "closer-run":
         c = closing or rng.choice(CLOSERS)
         t = "a " + c * rng.randint(2, 5) + " " + pay + " " + c
@@ -165,6 +173,9 @@ def run_case(ctx, col, case):
             res.append("ok")
         except REJECTIONS as e:
             res.append(type(e).__name__)
+        except Exception as e:
+            # refused in some other way (e.g. text that cannot be encoded): still a refusal, judged below
+            res.append("raised:" + type(e).__name__)
     col.count("differential_pairs")
     if cls in ("lf", "cr", "crlf", "lf+closer", "trailing-break"):
         col.count("hostile_linebreak")
